@@ -74,7 +74,7 @@ var (
 	poolGroup = []string{"", "core", gwGroup, "apps"}
 	poolKind  = []string{"Service", "Secret", "Gateway", "HTTPRoute", "GRPCRoute", "TLSRoute"}
 	poolNS    = []string{"a", "b", "c"}
-	poolName  = []string{"", "x", "y"}
+	poolName  = []string{"", "x", "y", "xy", "x-a"} // "x" is a proper prefix of "xy" and "x-a"; "xy"/"x-a" have equal length
 )
 
 func genGrants(r *rng.R, n int) (map[types.NamespacedName]*v1beta1.ReferenceGrant, []FGrant) {
@@ -150,6 +150,18 @@ func runRes(r *rng.R, n int) {
 					}
 					if t.Name != nil && cr.Chance(70, 100) {
 						to.Name = *t.Name
+						switch cr.Intn(8) {
+						case 0:
+							to.Name = *t.Name + "y" // the requested name has the granted one as a proper prefix
+						case 1:
+							if len(*t.Name) > 1 {
+								to.Name = (*t.Name)[:len(*t.Name)-1] // … and the reverse
+							}
+						case 2:
+							if len(*t.Name) > 0 {
+								to.Name = (*t.Name)[:len(*t.Name)-1] + "z" // same length, differing
+							}
+						}
 					}
 					switch cr.Intn(12) {
 					case 0:
@@ -219,7 +231,7 @@ func runVal(r *rng.R, n int) {
 		var obs valObs
 		if cr.Chance(70, 100) {
 			in.Kind = rng.Pick(cr, []string{"HTTPRoute", "GRPCRoute", "TLSRoute"})
-			b := gatewayv1.BackendRef{BackendObjectReference: gatewayv1.BackendObjectReference{Name: gatewayv1.ObjectName(rng.Pick(cr, []string{"x", "y"}))}}
+			b := gatewayv1.BackendRef{BackendObjectReference: gatewayv1.BackendObjectReference{Name: gatewayv1.ObjectName(rng.Pick(cr, []string{"x", "y", "xy", "x-a"}))}}
 			if cr.Chance(75, 100) {
 				b.Namespace = ptr(gatewayv1.Namespace(rng.Pick(cr, poolNS)))
 			}
@@ -247,7 +259,7 @@ func runVal(r *rng.R, n int) {
 			in.Kind = "Gateway"
 			secrets := map[types.NamespacedName]*apiv1.Secret{}
 			for _, ns := range poolNS {
-				for _, nm := range []string{"x", "y"} {
+				for _, nm := range []string{"x", "y", "xy", "x-a"} {
 					if cr.Chance(80, 100) {
 						secrets[types.NamespacedName{Namespace: ns, Name: nm}] = p.TLSSecret(ns, nm, 1)
 						in.Secrets = append(in.Secrets, ns+"/"+nm)
@@ -257,7 +269,7 @@ func runVal(r *rng.R, n int) {
 			var refs []gatewayv1.SecretObjectReference
 			nc := rng.Pick(cr, []int{1, 1, 1, 2})
 			for k := 0; k < nc; k++ {
-				c := gatewayv1.SecretObjectReference{Name: gatewayv1.ObjectName(rng.Pick(cr, []string{"x", "y"}))}
+				c := gatewayv1.SecretObjectReference{Name: gatewayv1.ObjectName(rng.Pick(cr, []string{"x", "y", "xy", "x-a"}))}
 				if cr.Chance(75, 100) {
 					c.Namespace = ptr(gatewayv1.Namespace(rng.Pick(cr, poolNS)))
 				}
@@ -292,8 +304,10 @@ func runCube() {
 				for _, fns := range []string{"a", "b", "c"} {
 					for _, tg := range []string{"", "core", "apps"} {
 						for _, tk := range []string{target, otherTarget} {
-							for _, tn := range []*string{nil, ptr(""), ptr("x"), ptr("y")} {
-								for _, gns := range []string{"b", "a", "c"} {
+							for _, tn := range []*string{nil, ptr(""), ptr("x"), ptr("y"), ptr("xy")} {
+								for _, gnsrn := range [][2]string{{"b", "x"}, {"a", "x"}, {"c", "x"}, {"b", "xy"}, {"a", "xy"}, {"c", "xy"}} {
+									// rn: the requested name — equal to / an extension of / a prefix of the granted one
+									gns, rn := gnsrn[0], gnsrn[1]
 									g := &v1beta1.ReferenceGrant{ObjectMeta: p.Meta(gns, "g", 0)}
 									g.Spec.From = []v1beta1.ReferenceGrantFrom{{Group: gatewayv1.Group(fg), Kind: gatewayv1.Kind(fk), Namespace: gatewayv1.Namespace(fns)}}
 									t := v1beta1.ReferenceGrantTo{Group: gatewayv1.Group(tg), Kind: gatewayv1.Kind(tk)}
@@ -305,17 +319,17 @@ func runCube() {
 									in := valIn{Grants: []FGrant{FlatGrant(g)}, Kind: kind, NS: "a", Certs: []FCert{}, Secrets: []string{}}
 									var obs valObs
 									if kind == "Gateway" {
-										secrets := map[types.NamespacedName]*apiv1.Secret{{Namespace: "b", Name: "x"}: p.TLSSecret("b", "x", 1)}
-										in.Secrets = []string{"b/x"}
-										c := gatewayv1.SecretObjectReference{Name: "x", Namespace: ptr(gatewayv1.Namespace("b"))}
-										in.Certs = []FCert{{NS: sp(c.Namespace), Name: "x"}}
+										secrets := map[types.NamespacedName]*apiv1.Secret{{Namespace: "b", Name: rn}: p.TLSSecret("b", rn, 1)}
+										in.Secrets = []string{"b/" + rn}
+										c := gatewayv1.SecretObjectReference{Name: gatewayv1.ObjectName(rn), Namespace: ptr(gatewayv1.Namespace("b"))}
+										in.Certs = []FCert{{NS: sp(c.Namespace), Name: rn}}
 										obs.Valid, obs.Conds, obs.Resolved = graph.VerifC06ResolveCert(m, secrets, "a", []gatewayv1.SecretObjectReference{c})
 										if obs.Conds == nil {
 											obs.Conds = []string{}
 										}
 									} else {
 										b := gatewayv1.BackendRef{BackendObjectReference: gatewayv1.BackendObjectReference{
-											Name: "x", Namespace: ptr(gatewayv1.Namespace("b")), Port: ptr(gatewayv1.PortNumber(80))}}
+											Name: gatewayv1.ObjectName(rn), Namespace: ptr(gatewayv1.Namespace("b")), Port: ptr(gatewayv1.PortNumber(80))}}
 										fr := flatRef(b, 0)
 										in.Ref = &fr
 										obs.Valid, obs.Reason = graph.VerifC06ValidateRef(m, kind, "a", b, 0)
@@ -490,4 +504,3 @@ func Run(args []string) int {
 	}
 	return 0
 }
-
